@@ -95,6 +95,9 @@ extern size_t vc_k;
 #define VC_PT_OBJECT  0x01U
 #define VC_PT_ARRAY   0x02U
 
+/* names and string/bytes payloads: any length the format admits (INT32_MAX) */
+#define VC_MAX_NAME     ((size_t) 2147483647)
+
 /* index of the level in use */
 #define VC_IDX(p)       (((p)->depth > 0) ? (size_t) (p)->depth - 1 : (size_t) 0)
 
@@ -110,10 +113,13 @@ extern size_t vc_k;
  * buffer, a string/bytes value is a span of the buffer, the flag word is one of the
  * five legal values */
 #define VC_LEVEL_OK(p, s)                                                                           \
-    (VC_SPAN_OK(p, (s)->current_name) &&                                                            \
+    (VC_SPAN_OK(p, (s)->current_name) && (s)->current_name.bsize <= VC_MAX_NAME &&                  \
+     ((s)->current_name.bptr == NULL ==> (s)->current_name.bsize == 0) &&                           \
      (((s)->current_type == BINSON_TYPE_STRING || (s)->current_type == BINSON_TYPE_BYTES) ==>       \
-      VC_IN_BUF(p, (s)->current_value.string_value)) &&                                             \
-     VC_FLAGS_OK((s)->flags))
+      (VC_IN_BUF(p, (s)->current_value.string_value) &&                                             \
+       (s)->current_value.string_value.bsize <= VC_MAX_NAME)) &&                                    \
+     VC_FLAGS_OK((s)->flags) &&                                                                     \
+     (((s)->flags == VC_ST_ARR1 || (s)->flags == VC_ST_ARR2) ==> (s)->array_depth > 0))
 
 /* a level holds nothing (as after memset 0) */
 #define VC_LEVEL_ZERO(s)                                                                            \
@@ -169,8 +175,6 @@ extern size_t vc_k;
 #define VC_ADV_VERIFY   0x01U
 #define VC_ADV_VALUE    0x20U
 
-/* names handed to a lookup: any length the format admits */
-#define VC_MAX_NAME     ((size_t) 2147483647)
 
 /* Explicit conjunction of a per-level fact M(p, i) over the VC_MD levels of the
  * state array. The loop invariant needs every level at once (the current level
@@ -302,6 +306,39 @@ extern size_t vc_j;
     VC_ENSURES(VC_RET == ((w)->error_flags == BINSON_ERROR_NONE))                                   \
     VC_ENSURES(((w)->error_flags == BINSON_ERROR_NONE && vc_j == 0) ==>                             \
                (w)->buffer[VC_OLD((w)->buffer_used) + vc_j] == (byte))
+
+/*---------------------------------------------------------------------------*/
+/* libc ghosts (set by the assumed libc contracts of the proofs, verif/stubs)  */
+/*---------------------------------------------------------------------------*/
+extern int    vc_memcmp_result;    /* result of the last memcmp */
+extern size_t vc_memcmp_n;         /* its length argument */
+extern const void *vc_memcmp_a, *vc_memcmp_b;
+extern size_t vc_memcmp_idx;
+extern size_t vc_strlen_result;    /* result of the last strlen */
+extern size_t vc_cstr_max;         /* a C string argument has its terminator within this many bytes */
+
+/* token grammar (specification side): b is the byte under the cursor */
+#define VC_IS_BOOL(b)    ((b) == 0x44 || (b) == 0x45)
+#define VC_IS_INT(b)     ((b) >= 0x10 && (b) <= 0x13)
+#define VC_IS_STRLEN(b)  ((b) >= 0x14 && (b) <= 0x16)
+#define VC_IS_BYTLEN(b)  ((b) >= 0x18 && (b) <= 0x1a)
+#define VC_IS_BLOB(b)    (VC_IS_STRLEN(b) || VC_IS_BYTLEN(b))
+#define VC_TOK_W(b)      ((size_t) 1 << ((b) & 0x03U))     /* width of the integer / length field */
+/* values of BINSON_STATE_PARSED_* / BINSON_STATE_ERROR, private to binson_parser.c */
+#define VC_NS_STRING   0x0010U
+#define VC_NS_BOOLEAN  0x0020U
+#define VC_NS_DOUBLE   0x0040U
+#define VC_NS_INTEGER  0x0080U
+#define VC_NS_BYTES    0x0100U
+#define VC_NS_ERROR    0x2000U
+
+/* abbreviations used by the contract of _process_one(parser, consumed, bytes_consumed):
+ * B = token byte, P = position of the token byte, R = bytes after the token byte,
+ * LEN = decoded length prefix of a string/bytes token */
+#define VC_B   (parser->buffer[VC_OLD(parser->buffer_used)])
+#define VC_P   (VC_OLD(parser->buffer_used))
+#define VC_R   (parser->buffer_size - VC_OLD(parser->buffer_used) - 1)
+#define VC_LEN (VC_SVAL(parser->buffer + VC_P + 1, VC_TOK_W(VC_B)))
 
 #endif /* BINSON_C_LIGHT_VERIF */
 
